@@ -48,6 +48,7 @@ def httpOp (toks : List String) : String :=
     match bytesOfHex h, bytesOfHex b with
     | some h, some b => parseObs h b
     | _, _ => "bad-op"
+  | ["read", hx, _] => httpOp ["read", hx]
   | ["read", hx] =>
     match bytesOfHex hx with
     | some stream =>
